@@ -153,27 +153,43 @@ impl AimdController {
 
     /// Record a success - increases the limit additively.
     pub fn record_success(&self) {
-        let current = self.limit.load(Ordering::Relaxed);
-        let new_limit = current
-            .saturating_add(self.config.increase_by)
-            .min(self.config.max_limit);
-        self.limit.store(new_limit, Ordering::Relaxed);
+        // One atomic read-modify-write, so concurrent feedback is never lost.
+        let _ = self
+            .limit
+            .fetch_update(Ordering::Relaxed, Ordering::Relaxed, |current| {
+                Some(
+                    current
+                        .saturating_add(self.config.increase_by)
+                        .min(self.config.max_limit),
+                )
+            });
     }
 
     /// Record a failure - decreases the limit multiplicatively.
     pub fn record_failure(&self) {
-        let current = self.limit.load(Ordering::Relaxed);
-        let decreased = (current as f64 * self.config.decrease_factor) as usize;
-        let new_limit = decreased.max(self.config.min_limit);
-        self.limit.store(new_limit, Ordering::Relaxed);
+        // One atomic read-modify-write, so concurrent feedback is never lost.
+        // The result is clamped on both sides: `current as f64` can round up
+        // for very large limits.
+        let _ = self
+            .limit
+            .fetch_update(Ordering::Relaxed, Ordering::Relaxed, |current| {
+                let decreased = (current as f64 * self.config.decrease_factor) as usize;
+                Some(
+                    decreased
+                        .min(self.config.max_limit)
+                        .max(self.config.min_limit),
+                )
+            });
     }
 
     /// Record multiple successes at once.
     pub fn record_successes(&self, count: usize) {
-        let current = self.limit.load(Ordering::Relaxed);
         let increase = self.config.increase_by.saturating_mul(count);
-        let new_limit = current.saturating_add(increase).min(self.config.max_limit);
-        self.limit.store(new_limit, Ordering::Relaxed);
+        let _ = self
+            .limit
+            .fetch_update(Ordering::Relaxed, Ordering::Relaxed, |current| {
+                Some(current.saturating_add(increase).min(self.config.max_limit))
+            });
     }
 
     /// Reset the limit to its initial value.
